@@ -1,10 +1,11 @@
 (* C04 -- Cross-chain transactions are delivered and executed exactly once, in order.
    Property theorems only.  Model: Model/C04.v.  Lemmas: Proofs/C04_Queue.v (queue),
-   Proofs/C04_Accept.v (block acceptance), Proofs/C04_Route.v (destination filters).
+   Proofs/C04_Accept.v (block acceptance), Proofs/C04_Route.v (destination filters),
+   Proofs/C04_Hier.v (hand-down across region blocks).
    Generated data of the implementation: Generated/C04Sites.v. *)
-From Coq Require Import List NArith Bool.
+From Coq Require Import List NArith Bool Permutation.
 From GQ Require Import Lib.Key Lib.SMap Lib.C04_BigEndian Lib.C04_Expr Model.C04
-  Proofs.C04_Queue Proofs.C04_Accept Proofs.C04_Route Generated.C04Sites.
+  Proofs.C04_Queue Proofs.C04_Accept Proofs.C04_Route Proofs.C04_Hier Generated.C04Sites.
 Import ListNotations.
 Local Open Scope N_scope.
 
@@ -282,6 +283,141 @@ Theorem destination_of_address_byte : forall p q,
 Proof. intros p q. split; [apply loc_of_prefix_bounds|apply loc_of_prefix_inj]. Qed.
 Print Assumptions destination_of_address_byte.
 
+(* ======================= (d) hand-down across region blocks ======================= *)
+
+(* CollectSubRollup (region): the concatenation, in manifest order, of what the zone blocks of the
+   manifest emitted; an error as soon as the region lacks the pending ETXs of one of them *)
+Theorem sub_rollup_is_manifest_concat : forall w m,
+  (forall ls, Forall2 (fun h l => lookup_pending w h = Some l) m ls -> sub_rollup w m = Some (concat ls)) /\
+  (forall h, In h m -> lookup_pending w h = None -> sub_rollup w m = None).
+Proof. intros w m. split; [apply sub_rollup_concat | apply sub_rollup_missing]. Qed.
+Print Assumptions sub_rollup_is_manifest_concat.
+
+(* CollectNewlyConfirmedEtxs on a tree-shaped store that holds every pending-ETX bundle the chain
+   refers to: the backward walk over the store (on fuel = number of stored blocks) never runs out of
+   fuel, never fails, and returns the block's own rollup followed by the contributions of its
+   ancestors, nearest first, up to the stopping block -- for every queried order, in a region node
+   (ctx = REGION_CTX) and in the prime node (ctx = PRIME_CTX) *)
+Theorem collect_newly_confirmed_computes_chain : forall w ctx b anc border,
+  anc_chain w b anc -> complete w (b :: anc) -> NoDup anc ->
+  newly_confirmed w ctx b border
+  = ROk (sel ctx (rb_loc b) border (roll_of w b) ++ collect_list w ctx (rb_loc b) border anc).
+Proof. exact newly_confirmed_refines. Qed.
+Print Assumptions collect_newly_confirmed_computes_chain.
+
+(* missing pending ETXs of the block itself are reported as an error, never skipped *)
+Theorem collect_reports_incomplete_store : forall w ctx b border,
+  sub_rollup w (rb_manifest b) = None -> newly_confirmed w ctx b border = RErrPending.
+Proof. exact newly_confirmed_incomplete. Qed.
+Print Assumptions collect_reports_incomplete_store.
+
+(* nothing is handed to another zone: whatever block b hands down (at prime or at region order)
+   is addressed to the zone that produced b *)
+Theorem handed_down_only_to_destination : forall w b anc e,
+  In e (handed_list w REGION_CTX b anc) -> loc_of_prefix (fst (retx_tx e)) = rb_loc b.
+Proof. exact handed_list_dest. Qed.
+Print Assumptions handed_down_only_to_destination.
+
+(* DELIVERED EXACTLY ONCE.  For every chain c (newest first) of region R stored in a tree-shaped,
+   complete store, in which zone Z is active: (1) for every block of the chain the real entry point
+   computes the list-level hand-down; (2) it goes to the producing zone only; (3)+(4) counted with
+   multiplicity, what has been handed to zone Z along the chain plus what is still pending for Z is
+   exactly what the chain owes Z -- the standard ETXs for Z in the sub rollups of its blocks and every
+   ETX for Z that prime handed down with its prime-order blocks: nothing lost, nothing twice, nothing
+   invented; (5) if the owed ETXs are distinct, so are the delivered ones.
+   (Coinbase and conversion ETXs of sub rollups, and ETXs leaving the region, are owed to nobody here:
+   they go up to prime, see region_or_prime_exclusive.) *)
+Theorem delivered_exactly_once : forall w R Z c,
+  in_region R Z -> Forall (wf_block R Z) c -> chain_in_store w c -> complete w c -> NoDup c ->
+  (forall pre b anc, c = pre ++ b :: anc -> handed_down w REGION_CTX b = ROk (handed_list w REGION_CTX b anc))
+  /\ (forall b anc e, In e (handed_list w REGION_CTX b anc) -> loc_of_prefix (fst (retx_tx e)) = rb_loc b)
+  /\ Permutation (delivered w Z c ++ pending_for w Z c) (owed w Z c)
+  /\ (forall e, (cnt e (delivered w Z c) + cnt e (pending_for w Z c) = cnt e (owed w Z c))%nat)
+  /\ (NoDup (owed w Z c) -> NoDup (delivered w Z c ++ pending_for w Z c)).
+Proof. exact delivered_exactly_once_lem. Qed.
+Print Assumptions delivered_exactly_once.
+
+(* a region-order block of zone Z leaves nothing pending for Z ... *)
+Theorem region_block_of_destination_clears_pending : forall w R Z b anc,
+  in_region R Z -> wf_block R Z b -> rb_loc b = Z -> rb_order b = REGION_CTX ->
+  pending_for w Z (b :: anc) = [].
+Proof. exact region_block_clears_pending. Qed.
+Print Assumptions region_block_of_destination_clears_pending.
+
+(* ... because it is the delivery point: whatever an earlier block p of the chain contributes for
+   the zone of b (the roll-down of p's prime inbound set unless p handed it down itself, and the
+   standard ETXs of p's sub rollup) is handed down by b when no block between them (p included) is a
+   region-order block of that zone -- in particular a PRIME-order block of the same zone in between
+   does not end the walk *)
+Theorem first_region_block_of_destination_delivers : forall w R b mid p rest,
+  in_region R (rb_loc b) -> rb_order b = REGION_CTX ->
+  Forall (wf_block R (rb_loc b)) (mid ++ [p]) -> Forall (not_region_block_of (rb_loc b)) (mid ++ [p]) ->
+  incl (contrib w REGION_CTX (rb_loc b) REGION_CTX p) (handed_list w REGION_CTX b (mid ++ p :: rest)).
+Proof. exact first_region_block_delivers. Qed.
+Print Assumptions first_region_block_of_destination_delivers.
+
+(* DELIVERED EXACTLY ONCE, prime node.  For every chain c (newest first) of prime blocks stored in a
+   tree-shaped, complete store in which the region named by Z and the slices of the blocks are active:
+   the real entry point computes the list-level hand-down for every block; counted with multiplicity,
+   what prime blocks of that region have handed to it plus what is still pending for it is exactly what
+   the rollups referred to by the chain hold for that region (ETXs of every type) *)
+Theorem prime_delivered_exactly_once : forall w Z c,
+  wf_chain_p Z c -> chain_in_store w c -> complete w c -> NoDup c ->
+  (forall pre b anc, c = pre ++ b :: anc -> handed_down w PRIME_CTX b = ROk (handed_list w PRIME_CTX b anc))
+  /\ Permutation (delivered_p w Z c ++ pending_for_p w Z c) (owed_p w Z c)
+  /\ (forall e, (cnt e (delivered_p w Z c) + cnt e (pending_for_p w Z c) = cnt e (owed_p w Z c))%nat)
+  /\ (NoDup (owed_p w Z c) -> NoDup (delivered_p w Z c ++ pending_for_p w Z c)).
+Proof. exact prime_delivered_exactly_once_lem. Qed.
+Print Assumptions prime_delivered_exactly_once.
+
+(* the delivery point in prime: a prime block of the region leaves nothing pending for the region *)
+Theorem prime_block_of_region_clears_pending : forall w Z b anc,
+  rb_order b = PRIME_CTX -> not_active (rb_exp b) Z = false -> same_sub PRIME_CTX (rb_loc b) Z = true ->
+  pending_for_p w Z (b :: anc) = [].
+Proof. exact prime_block_clears_pending. Qed.
+Print Assumptions prime_block_of_region_clears_pending.
+
+(* one route only: an ETX of a sub rollup addressed to a zone of this region is selected by that
+   zone's region-order filter exactly when it is not sent up to prime; an ETX leaving the region
+   is sent up and selected by no zone of the region at any order *)
+Theorem region_or_prime_exclusive : forall R e,
+  (fst (retx_tx e) / 16 = R ->
+   filter_to_sub (loc_of_prefix (fst (retx_tx e))) REGION_CTX REGION_CTX (retx_tx e) = negb (goes_to_prime R e)) /\
+  (fst (retx_tx e) / 16 <> R ->
+   goes_to_prime R e = true /\ forall z order, filter_to_sub [R; z] REGION_CTX order (retx_tx e) = false).
+Proof.
+  intros R e. split.
+  - apply Proofs.C04_Hier.region_or_prime_exclusive.
+  - intro H. split; [apply (leaves_region_only_up R 0 0 e H)|]. intros z order. apply (leaves_region_only_up R z order e H).
+Qed.
+Print Assumptions region_or_prime_exclusive.
+
+(* FINDING (known, monitor route-region:rollup-for-dom:unfiltered): the clause "what the region gives prime
+   for a block is the rollup its header commits to" is REFUTED for the retry path
+   GetPendingEtxsRollupFromSub: the answer is the unfiltered sub rollup.  Full statement:
+     forall w R b, rollup_for_dom w b = committed_rollup w R b.
+   Witness: block r2 of the example chain (its zone block emitted two intra-region ETXs and one leaving). *)
+Theorem rollup_for_dom_refuted : exists w R b, rollup_for_dom w b <> committed_rollup w R b.
+Proof. exists ex_world, 0, (ex_b 12). vm_compute. discriminate. Qed.
+Print Assumptions rollup_for_dom_refuted.
+(* strongest true statement: the answer is accepted exactly when nothing of the rollup stays inside the region *)
+Theorem rollup_for_dom_partial : forall w R b roll,
+  sub_rollup w (rb_manifest b) = Some roll -> forallb (goes_to_prime R) roll = true ->
+  rollup_for_dom w b = committed_rollup w R b.
+Proof.
+  intros w R b roll H Hall. unfold rollup_for_dom, committed_rollup. rewrite H. cbn [option_map]. f_equal. clear H.
+  induction roll as [|x l IH]; [reflexivity|]. cbn [forallb] in Hall. apply andb_true_iff in Hall. destruct Hall as [Hx Hl].
+  cbn [filter]. rewrite Hx. f_equal. apply IH. exact Hl.
+Qed.
+Print Assumptions rollup_for_dom_partial.
+
+(* generated obligation: the statements of Slice.Append (outside its prime-only branches) that touch
+   the ETX set handed to the subordinate chain, or the rollup sent up to prime, are exactly the ones
+   handed_down / goes_to_prime were written against (guards and order included) *)
+Theorem append_glue_as_modelled : src_append_glue = append_glue_model.
+Proof. vm_compute. reflexivity. Qed.
+Print Assumptions append_glue_as_modelled.
+
 (* ======================= non-vacuity ======================= *)
 
 (* a history crossing the 255/256 key-length boundary, with a pop on empty in it *)
@@ -326,3 +462,41 @@ Example route_nonvacuous :
   map (filter_to_sub [1; 2] REGION_CTX REGION_CTX) [(18, 0); (18, 1); (18, 2); (18, 3)] = [true; false; false; true] /\
   map (filter_to_sub [1; 2] ZONE_CTX PRIME_CTX) [(18, 0)] = [false].
 Proof. vm_compute. repeat split. Qed.
+
+(* the shape of the seeded change C04_2: zone 1's region block r1, zone 0's r2 (its zone block emitted
+   ETX 1 -> zone 1), zone 1's PRIME-order r3 (prime hands down 7 -> zone 1 and the conversion 8 -> zone 2),
+   zone 2's r4, zone 1's r5.  r3 hands down only what prime sent for zone 1; r5 walks back through r3
+   and delivers ETX 1; the conversion 8 is rolled down to zone 2 by r4; x = ETX 3 (to region 1) and
+   nothing else is handed down; the hypotheses of delivered_exactly_once hold for this chain *)
+Example hier_nonvacuous :
+  map (fun h => rres_code (handed_down ex_world REGION_CTX (ex_b h))) [11; 12; 13; 14; 15]
+  = [(0, []); (0, []); (0, [7]); (0, [8; 2]); (0, [5; 1])] /\
+  map retx_id (owed ex_world [0;1] ex_chain) = [1; 7; 5] /\
+  map retx_id (delivered ex_world [0;1] ex_chain) = [7; 5; 1] /\
+  pending_for ex_world [0;1] ex_chain = [] /\
+  map retx_id (pending_for ex_world [0;2] ex_chain) = [6] /\
+  (in_region 0 [0;1] /\ Forall (wf_block 0 [0;1]) ex_chain /\ chain_in_store ex_world ex_chain
+   /\ complete ex_world ex_chain /\ NoDup ex_chain).
+Proof. repeat split; try (vm_compute; reflexivity); apply ex_chain_ok. Qed.
+
+(* prime node: p1 (slice [0;0]) refers to region block 201 whose rollup holds 1 -> region 1, 2 -> region 0
+   (a coinbase); p2 (slice [1;0]); p3 (slice [0;1]): p1 hands [2] to region 0, p2 hands [1;3] to region 1,
+   p3 hands [4] to region 0; ETX 5 -> region 2 stays pending *)
+Example prime_nonvacuous :
+  let w := mkRW [1] [mkRB 1 0 [] 0 0 [] []; mkRB 11 1 [0;0] 0 4 [201] []; mkRB 12 11 [1;0] 0 4 [202] [];
+                     mkRB 13 12 [0;1] 0 4 [203] []]
+                [(201, [(1,16,0); (2,1,1)]); (202, [(3,17,2); (4,2,0)]); (203, [(5,32,0)])] in
+  let b h := match lookup_block w h with Some x => x | None => mkRB 0 0 [] 0 0 [] [] end in
+  let c := map b [13; 12; 11] in
+  map (fun h => rres_code (handed_down w PRIME_CTX (b h))) [11; 12; 13] = [(0, [2]); (0, [3; 1]); (0, [4])] /\
+  map retx_id (delivered_p w [0;0] c) = [2; 4] /\ map retx_id (owed_p w [0;0] c) = [2; 4] /\
+  map retx_id (pending_for_p w [2;0] c) = [5] /\
+  wf_chain_p [0;0] c /\ chain_in_store w c /\ complete w c /\ NoDup c.
+Proof.
+  cbv zeta. repeat split; try (vm_compute; reflexivity).
+  - repeat constructor; vm_compute; reflexivity.
+  - intros x y Hx Hy. cbn in Hx, Hy. intuition (subst; vm_compute; reflexivity).
+  - eexists; vm_compute; reflexivity.
+  - repeat constructor; vm_compute; discriminate.
+  - repeat constructor; cbn; intuition discriminate.
+Qed.
